@@ -1592,7 +1592,15 @@ type c17Job struct {
 }
 
 func c17AllPkgs() []*core.Pkg {
-	return append(append([]*core.Pkg{}, core.Packages()...), core.AuxPackages()...)
+	// the 8 corpus packages, the enum corpus (ven*) and the key corpus (vk); auxiliary corpora that
+	// other properties add later (vval, vlr, vdef, vps ...) are not part of C17's input
+	out := append([]*core.Pkg{}, core.Packages()...)
+	for _, p := range core.AuxPackages() {
+		if strings.HasPrefix(p.SchemaName, "ven") || p.SchemaName == "vk" {
+			out = append(out, p)
+		}
+	}
+	return out
 }
 
 func c17PosByID(p *core.Pkg, id string) *c17Pos {
